@@ -143,6 +143,22 @@ def gen_large(rng, kind):
             case["limit"] = n_forced + int(rng.choice([1, 2]))
             syms = ["A+1", "A+2", "A+3"]
             case["label_script"] = dict(pattern=[syms[j % 3] for j in range(n_forced)], then="natural")
+    elif kind == "donorrank":
+        # one cluster to refill, two eligible donors whose covariance spreads are close and differ in how much of the spread sits off
+        # the diagonal (forced for two rounds so that both donors carry fitted MRFs, then the run continues on its own)
+        m = int(rng.integers(6, 12))
+        n0, n1, n2 = int(rng.integers(150, 260)), int(rng.integers(150, 260)), int(rng.integers(2, 5))
+        case["data"] = dict(gen="donorpair", seed=int(rng.integers(0, 2 ** 31)), T=n0 + n1 + n2, N=2, sizes=[n0, n1, n2],
+                            rho=0.9, s=float(rng.choice([1.24, 1.27, 1.3])),
+                            unit=float(rng.choice([1.0, 1.0, 1.0, 1e3])), flavor="plain")
+        case["W"] = 1
+        case["K"] = 3
+        case["m"] = m
+        case["limit"] = int(rng.choice([3, 4]))
+        case["lam"] = dict(form="float", value=float(rng.choice([0.0, 0.005])))
+        case["beta"] = dict(form="float", value=float(rng.choice([1.0, 10.0])))
+        case["init"] = dict(kind="blocks")
+        case["label_script"] = dict(pattern=["D3a", "D3b"], then="natural", sizes=[n0, n1, n2])
     elif kind == "doublerepop":
         # two clusters must be refilled in the same round from two different donors, neither of which was touched by the relabelling
         # just before (forced for two rounds, then the run continues on its own)
